@@ -115,8 +115,10 @@ def one_fit(arg):
         if f in obj.quantitative_features:
             nb = len([l for l in order if l != obj.str_nan])
             # every bucket (also an empty one) is counted
-            sizes = {repr(obj.labels_per_values[f][l]): 0 for l in order if l != obj.str_nan}
-            for l, c in counts.items(): sizes[repr(l)] = c
+            # counted on the raw values against the fitted boundaries (right-closed intervals), not through the labels
+            bounds = [float(l) for l in order if l != obj.str_nan]; xv = col.dropna().astype(float).values; sizes = {}; prev = -np.inf
+            for b_ in bounds:
+                sizes[repr(b_)] = int(((xv > prev) & (xv <= b_)).sum()); prev = b_
             ok = nb <= 1 or all(c / n >= mf / 2 for c in sizes.values())
             rec('fit#post.quantitative_bucket_at_least_half_min_freq', ok, 'feature %s: bucket sizes %r of %d rows, min_freq/2=%.4f' % (f, sizes, n, mf / 2), dict(feature=f))
             if kind == 'ContinuousDiscretizer' or True:
@@ -146,7 +148,7 @@ def fitted_scope(ctx, props):
     n = 100 if ctx.tier == 'quick' else 1000
     specs = []
     for i in range(n):
-        case = zoo.random_case(ctx.rng, variants=True, degenerate=(i % 5 == 4))
+        case = zoo.random_case(ctx.rng, variants=True, degenerate=(zoo.DEGENERATE[(i // 5) % len(zoo.DEGENERATE)] if i % 5 == 4 else False))          # every degenerate archetype in turn
         # falsy category values on purpose (the code base uses any(list) as an emptiness test)
         if case['qualitative'] and i % 3 == 0:
             c = case['qualitative'][0]; col = case['X'][c].copy(); idx = [j for j in range(len(col)) if j % 17 == 0][:2]
@@ -155,7 +157,21 @@ def fitted_scope(ctx, props):
         cfg = dict(min_freq=ctx.rng.choice([0.05, 0.1, 0.2, 0.25, 0.34, 0.5]), max_n_mod=3, sort_by='tschuprowt', dropna=True, output_dtype='str')
         if i % 4 == 1: cfg['str_default'] = 'AUTRES'; cfg['str_nan'] = 'MISSING'
         kinds = [k for k in ('Discretizer', 'QuantitativeDiscretizer', 'QualitativeDiscretizer') if ob.applicable(k, case)]
+        if i % 5 == 4:
+            for k_ in kinds: specs.append((k_, case, cfg, i))          # a degenerate column goes through every applicable class
+            continue
         specs.append((ctx.rng.choice(kinds), case, cfg, i))
+    # over-represented values one ulp apart with a rare value in between (a ratio equal to 1.0 up to floating-point noise, amounts around 1e15): the rare value is a
+    # quantile of its own after ContinuousDiscretizer and must then be merged with a neighbour -- through interval labels that need 17 significant digits
+    for j in range(6 if ctx.tier == 'quick' else 40):
+        base = [1.0, 1.0e15, 3.0, 0.1][j % 4]; v1 = float(np.nextafter(base, np.inf)); v2 = float(np.nextafter(v1, np.inf)); far = base * 2
+        m = ctx.rng.choice([200, 400, 1000]); rare = max(1, int(m * ctx.rng.choice([0.03, 0.04])))
+        vals = [base] * int(m * 0.3) + [v1] * rare + [v2] * (m - int(m * 0.3) - int(m * 0.3) - rare) + [far] * int(m * 0.3)
+        ctx.rng.shuffle(vals)
+        Xu = pd.DataFrame({'q_noise': pd.Series(vals, dtype=float)}); yu = pd.Series([int(ctx.rng.random() < 0.4) for _ in range(m)])
+        case_u = dict(X=Xu, y=yu, X_dev=None, y_dev=None, quantitative=['q_noise'], qualitative=[], ordinal=[], values_orders={}, target='binary', origin=dict(kind='ulp_sandwich'))
+        for k_ in ('QuantitativeDiscretizer', 'Discretizer'):
+            specs.append((k_, case_u, dict(min_freq=0.1, max_n_mod=3, sort_by='tschuprowt', dropna=True, output_dtype=['str', 'float'][j % 2]), 5000 + j))
     ctx.bound('Discretizer family fit', '%d seeded random frames (incl. degenerate columns, empty-string categories, never-observed ordinal values), min_freq in {0.05,0.1,0.2,0.25,0.34,0.5}' % n)
     for recs in zoo.pmap(one_fit, specs):
         for clause, ok, wit, msg in recs: ctx.check(clause, clause.split('#')[0], ok, wit, msg)
